@@ -337,10 +337,12 @@ def pub_item(text, kind):
 def pub_fields(text):
     """R1 for named / tuple struct fields"""
     b = blank(text)
-    ob = b.find('{')
-    op = b.find('(')
-    semi = b.find(';')
-    if ob >= 0 and (op < 0 or ob < op or True) and (semi < 0 or ob < semi):
+    ms = re.search(r'\bstruct\s+\w+', b)
+    st = ms.end() if ms else 0
+    ob = b.find('{', st)
+    op = b.find('(', st)
+    semi = b.find(';', st)
+    if ob >= 0 and (op < 0 or ob < op) and (semi < 0 or ob < semi):
         cb = match_close(b, ob)
         body = text[ob + 1:cb]
         bb = b[ob + 1:cb]
@@ -492,6 +494,12 @@ def process_fn(src_obj, containers, name, opts, subs, log):
                 raise LostAnchor(f'{name}: rename source `{old}` not found')
             body = body.replace(old, new)
             log.append(f'R5 rename {old} => {new}')
+        if kind == 'rename-re':
+            old, new = [x.strip() for x in arg.split('=>')]
+            body, cnt = re.subn(old, new, body)
+            if cnt == 0:
+                raise LostAnchor(f'{name}: rename pattern `{old}` not found')
+            log.append(f'R5 rename /{old}/ => {new}')
     # loops: process from last to first so offsets stay valid
     loops = find_loops(body)
     loop_edits = {}
